@@ -341,6 +341,13 @@ def run_driver(driver, module, cases, wd, tag="run", shards=None, timeout=900, e
 
 # ---------------------------------------------------------------- evidence / findings
 def write_evidence(pid, tier, seed, level, coverage, wall, violations, assumptions):
+    if REPO != "/repo":
+        # evaluating a scratch tree (seeded change): never touch the evidence of the real tree
+        d = os.path.join(VERIF, ".work", "evidence-scratch")
+        os.makedirs(d, exist_ok=True)
+        with open(os.path.join(d, "%s.json" % pid), "w") as f:
+            json.dump({"property_id": pid, "tier": tier, "seed": seed, "coverage": coverage, "violations": violations}, f, indent=1)
+        return
     os.makedirs(os.path.join(VERIF, "evidence"), exist_ok=True)
     ev = {"property_id": pid, "tier": tier, "seed": seed, "level": level, "coverage": coverage,
           "assumptions": assumptions, "wall_s": round(wall, 2), "violations": violations}
